@@ -1,0 +1,46 @@
+//go:build verif
+
+// Copyright © 2022-2026 Obol Labs Inc. Licensed under the terms of a Business Source License 1.1
+
+package validatorapi
+
+import (
+	eth2v1 "github.com/attestantio/go-eth2-client/api/v1"
+	eth2p0 "github.com/attestantio/go-eth2-client/spec/phase0"
+
+	"github.com/obolnetwork/charon/core"
+	"github.com/obolnetwork/charon/tbls"
+)
+
+// This file only exports existing unexported lookup closures of Component to the verification
+// harness (build tag verif). It adds no behaviour.
+
+// VerifGetPubShare calls the getPubShareFunc closure built by NewComponent.
+func (c *Component) VerifGetPubShare(pubkey eth2p0.BLSPubKey) (eth2p0.BLSPubKey, bool) {
+	return c.getPubShareFunc(pubkey)
+}
+
+// VerifGetPubKey calls the getPubKeyFunc closure built by NewComponent.
+func (c *Component) VerifGetPubKey(share eth2p0.BLSPubKey) (eth2p0.BLSPubKey, error) {
+	return c.getPubKeyFunc(share)
+}
+
+// VerifGetVerifyShare calls the getVerifyShareFunc closure built by NewComponent.
+func (c *Component) VerifGetVerifyShare(pubkey core.PubKey) (tbls.PublicKey, error) {
+	return c.getVerifyShareFunc(pubkey)
+}
+
+// VerifSharesByKey returns a copy of the sharesByKey table built by NewComponent.
+func (c *Component) VerifSharesByKey() map[core.PubKey]core.PubKey {
+	out := make(map[core.PubKey]core.PubKey, len(c.sharesByKey))
+	for k, v := range c.sharesByKey {
+		out[k] = v
+	}
+
+	return out
+}
+
+// VerifConvertValidators calls the unexported convertValidators.
+func (c *Component) VerifConvertValidators(vals map[eth2p0.ValidatorIndex]*eth2v1.Validator, ignoreNotFound bool) (map[eth2p0.ValidatorIndex]*eth2v1.Validator, error) {
+	return c.convertValidators(vals, ignoreNotFound)
+}
